@@ -71,14 +71,14 @@ PROPS = {
               'no apply between fixing the position and serializing; dump only ever renamed into place; name table rebuilt for the enabled version; interrupted transfers restart.',
               ['pickle round-trip equality of user state', 'chunk reassembly under every interruption pattern'],
               'writer/reader table agreement, attribute def-order analysis, CFG reachability, call-graph reachability'),
-    'C10': _p(['R-gate-live', 'R-rollback-paired', 'R-apply-on-append', 'R-removed-excluded', 'R-owners-membership'],
+    'C10': _p(['R-gate-live', 'R-rollback-paired', 'R-apply-on-append', 'R-removed-excluded', 'R-owners-membership', 'R-payload-complete'],
               'the leader-side gate is live (pending marker set to the index of every appended membership entry, cleared only once applied, both gates dominate the mutation); '
               'truncation preceded by the reverse rollback of the same slice; snapshot adoption restores the member set; refused changes are not appended and stored ones are '
               'applied on followers; add/remove perform all their bookkeeping effects.',
               ['quorum-overlap safety under interleavings (follows from the gate + C03/C04 by a paper argument)', 'operator discipline clauses'],
               'dead-guard / def-use analysis, path-sensitive reachability with obligation nodes removed, effect multiset per path',
               thorough_rules=['L-dead-guard']),
-    'C11': _p(['R-chunk-length', 'R-chunk-kinds', 'R-cmd-shapes', 'R-wire-schema', 'R-bounded-write'],
+    'C11': _p(['R-chunk-length', 'R-chunk-kinds', 'R-cmd-shapes', 'R-wire-schema', 'R-bounded-write', 'R-read-ungated'],
               'the chunk classifier uses the length of the sliced sequence and yields start, process*, finish for every size; sender kinds = receiver kinds with the right buffer effect '
               'per kind; command pack/unpack shapes agree and reserved keywords are removed before pickling; every key the handler reads is written by every consistent sender; journal write bounded.',
               ['equality of pickled arguments after transport (round trip)', 'exact batch arithmetic of __getEntries'],
@@ -87,7 +87,7 @@ PROPS = {
               'whether an exception of user code can leave the apply step (known finding on this tree), and that no handler continues with the next entry without advancing.',
               ['equality of replicas afterwards (determinism of user code)'],
               'exception-edge reachability on the CFG of the apply step and dispatcher'),
-    'C13': _p(['R-header-agree', 'R-codec-inverse', 'R-length-range', 'R-length-symmetry', 'R-decode-contained', 'R-consume-once', 'R-parser-state', 'R-write-fifo', 'R-disconnect-idempotent'],
+    'C13': _p(['R-header-agree', 'R-codec-inverse', 'R-length-range', 'R-length-symmetry', 'R-decode-contained', 'R-consume-once', 'R-parser-state', 'R-write-fifo', 'R-disconnect-idempotent', 'R-read-ungated'],
               'header format and literal sizes agree; receive pipeline is the reversed inverse of the send pipeline; received length bounded below and by the buffered bytes before use; '
               'decode errors contained => disconnect without consuming; buffer advanced exactly once per delivered frame by header+length; parser keeps no state but the buffer; '
               'write buffer is appended whole frames and trimmed by the sent prefix.',
@@ -108,7 +108,7 @@ PROPS = {
               'late-acquire test, report failure and release; prolongation period at most half the auto-unlock time.',
               ['exclusion under commit delay with unsynchronised clocks', 'eventual obtainability under partitions'],
               'guard entailment, comparator partition over a three-point domain, sibling agreement'),
-    'C17': _p(['R-id-order', 'R-name-format', 'R-setversion-guards', 'R-version-select', 'R-version-apply', 'R-apply-step', 'R-version-pairing', 'R-version-in-payload'],
+    'C17': _p(['R-id-order', 'R-name-format', 'R-setversion-guards', 'R-version-select', 'R-version-apply', 'R-apply-step', 'R-version-pairing', 'R-version-in-payload', 'R-enumeration-siblings'],
               'ids assigned in sorted (version, consumer ordinal, name) order, consecutively, tables written only by the constructor; registration and lookup names share one format; '
               'setCodeVersion guards; resolver picks the newest version <= requested; VERSION apply refuses unsupported versions before switching and stops the batch; name table paired with the '
               'enabled version; enabled version carried by snapshots.',
